@@ -4,6 +4,16 @@ typedef struct { unsigned long len; unsigned long id; } cstring;
 static inline cstring cstring__opaque(void) { cstring s; return s; }
 static inline char *cstring__data(cstring *s) { return (char *)s->id; }
 static inline char *cstring__data_v(cstring s) { return (char *)s.id; }
+/* path names: a + b is an uninterpreted function of the operands' identities; the last concatenation is remembered (A11) */
+unsigned long __CPROVER_uninterpreted_concat(unsigned long, unsigned long);
+struct cc_ghost { unsigned long a, b, r; };
+struct cc_ghost g_cc;
+static inline cstring cstring__concat(cstring a, cstring b) { cstring r; r.len = a.len + b.len; r.id = __CPROVER_uninterpreted_concat(a.id, b.id); g_cc.a = a.id; g_cc.b = b.id; g_cc.r = r.id; return r; }
+static inline cstring cstring__lit_v(unsigned long h) { cstring s; s.len = h >> 32; s.id = h; return s; }
+#undef CSTRING_CONCAT
+#undef CSTRING_LIT
+#define CSTRING_CONCAT(a, b) cstring__concat(a, b)
+#define CSTRING_LIT(t, h) cstring__lit_v(h)
 _Bool nondet_bool(void); unsigned long nondet_ulong(void); int nondet_int(void);
 
 /* ---- automatic storage: CBMC has no stack model; a VLA larger than 1 MiB per call is reported (C14 chunks of tens of MiB) */
@@ -75,13 +85,17 @@ int lib_fstat(int fd, struct stat_s *b) { return nondet_bool() ? -1 : 0; }
 struct ofstream { _Bool open_, failed; };
 struct type_info { int id; };
 _Bool g_f_open, g_f_flushed, g_f_renamed, g_f_order_bad; unsigned long g_f_writes_after_rename, g_f_nrename;
-void ofstream__open(struct ofstream *f, cstring path) { if (g_exc) return; if (nondet_bool()) { f->failed = 1; f->open_ = 0; return; } f->open_ = 1; f->failed = 0; g_f_open = 1; g_f_flushed = 0; g_f_renamed = 0; }
+/* names: the path a file was opened under = <base> + <suffix> (the last concatenation); it may only be renamed to <base> */
+unsigned long g_f_path, g_f_base, g_f_suffix; _Bool g_f_name_bad;
+void ofstream__open(struct ofstream *f, cstring path) { if (g_exc) return; if (path.id != g_cc.r) g_f_name_bad = 1; g_f_path = path.id; g_f_base = g_cc.a; g_f_suffix = g_cc.b;
+  if (nondet_bool()) { f->failed = 1; f->open_ = 0; return; } f->open_ = 1; f->failed = 0; g_f_open = 1; g_f_flushed = 0; g_f_renamed = 0; }
 _Bool ofstream__fail(struct ofstream *f) { return f->failed; }
 _Bool ofstream__is_open(struct ofstream *f) { return f->open_; }
 struct ofstream *ofstream__write(struct ofstream *f, char *p, long n) { if (g_exc) return f; if (!f->open_ || g_f_renamed) g_f_order_bad = 1; if (nondet_bool()) { f->failed = 1; g_lost = 1; } g_f_flushed = 0; return f; }
 struct ofstream *ofstream__flush(struct ofstream *f) { if (g_exc) return f; if (f->open_) g_f_flushed = 1; return f; }
 void ofstream__close(struct ofstream *f) { if (g_exc) return; f->open_ = 0; g_f_open = 0; }
-int lib_rename(char *a, char *b) { if (g_exc) return 0; if (g_f_open || !g_f_flushed || g_f_renamed) g_f_order_bad = 1; g_f_renamed = 1; if (g_f_nrename < 1000) g_f_nrename++; return nondet_bool() ? -1 : 0; }
+int lib_rename(char *a, char *b) { if (g_exc) return 0; if (g_f_open || !g_f_flushed || g_f_renamed) g_f_order_bad = 1;
+  if ((unsigned long)a != g_f_path || (unsigned long)b != g_f_base) g_f_name_bad = 1;   /* the file written is renamed, to its own name without the suffix */ g_f_renamed = 1; if (g_f_nrename < 1000) g_f_nrename++; return nondet_bool() ? -1 : 0; }
 struct type_info *any__type(struct any *v) { static struct type_info t; t.id = v->which; return &t; }
 struct type_info *typeid__str(void) { static struct type_info t; t.id = 1; return &t; }
 struct type_info *typeid__i32(void) { static struct type_info t; t.id = 2; return &t; }
